@@ -198,7 +198,26 @@ fn build_corpus() -> Corpus {
             _ => {}
         }
     }
-    assert!(!reg_json.is_empty() && !auth_json.is_empty() && !mc_resp.is_empty() && !ga_resp.is_empty() && !info.is_empty() && !cose.is_empty(), "harness: corpus ceremony failed: {:?}", rec.ops.iter().map(|o| super::common::short_result(&o.result)).collect::<Vec<_>>());
+    // a change under test may make the corpus ceremony fail; the decoders still get valid
+    // (hand-made) messages of every type, so that this check keeps judging decoders only
+    let fb = |v: &mut Vec<Vec<u8>>, m: Vec<u8>| {
+        if v.is_empty() {
+            v.push(m);
+        }
+    };
+    fb(&mut reg_json, br#"{"id":"AQID","rawId":[1,2,3],"type":"public-key","response":{"clientDataJSON":[123,125],"authenticatorData":[0],"publicKeyAlgorithm":-7,"attestationObject":[160]},"clientExtensionResults":{}}"#.to_vec());
+    fb(&mut auth_json, br#"{"id":"AQID","rawId":[1,2,3],"type":"public-key","response":{"clientDataJSON":[123,125],"authenticatorData":[0],"signature":[48,0]},"clientExtensionResults":{}}"#.to_vec());
+    fb(&mut cdata, br#"{"type":"webauthn.get","challenge":"AQID","origin":"https://example.com","crossOrigin":false}"#.to_vec());
+    let mut plain_ad = vec![0x11u8; 32];
+    plain_ad.extend_from_slice(&[0x01, 0, 0, 0, 5]);
+    fb(&mut auth_datas, plain_ad.clone());
+    if auth_datas.len() < 2 {
+        auth_datas.push(plain_ad.clone());
+    }
+    fb(&mut mc_resp, to_cbor(&cbor!({1 => "none", 2 => ciborium::value::Value::Bytes(plain_ad.clone()), 3 => {}}).unwrap()));
+    fb(&mut ga_resp, to_cbor(&cbor!({2 => ciborium::value::Value::Bytes(plain_ad.clone()), 3 => ciborium::value::Value::Bytes(vec![0x30, 0])}).unwrap()));
+    fb(&mut info, to_cbor(&cbor!({1 => ["FIDO_2_0"], 3 => ciborium::value::Value::Bytes(vec![0; 16])}).unwrap()));
+    fb(&mut cose, to_cbor(&cbor!({1 => 2, 3 => -7, -1 => 1, -2 => ciborium::value::Value::Bytes(vec![0x11; 32]), -3 => ciborium::value::Value::Bytes(vec![0x22; 32])}).unwrap()));
     // authenticator data with an extension map
     let mut with_ed = auth_datas[1].clone();
     with_ed[32] |= 0x80;
